@@ -280,9 +280,9 @@ def perturb_once(c, kind, rng, stats):
     return None
 
 
-def insert_extended_arg(c, ins, rng):
+def insert_extended_arg(c, ins, rng, only_jumps=False, max_units=3):
     """Put a redundant `EXTENDED_ARG 0` in front of one instruction, fixing jumps and the line table."""
-    cands = [i for i, x in enumerate(ins) if x[3] < 3 and x[1] >= HAVE_ARG]
+    cands = [i for i, x in enumerate(ins) if x[3] < max_units and x[1] >= HAVE_ARG and (not only_jumps or x[1] in HASJABS or x[1] in HASJREL)]
     if not cands:
         return None
     k = rng.choice(cands)
